@@ -5,6 +5,10 @@ import json, os, re, subprocess, sys, time
 SCR = "/tmp/verif-mut-C12"
 R = "lib/store/redis/redis.go"
 KV = "lib/store/kv/store.go"
+CFG = "lib/store/redis/config.go"
+CL = "lib/store/redis/clustermanager.go"
+SC = "lib/store/redis/scriptcache.go"
+HK = "lib/store/redis/hook.go"
 
 def fn(name, old, new, count=1):
     """replace inside the body of method `name` only"""
@@ -90,6 +94,20 @@ MUTANTS = [
     ("seeded-deadline-errors-never-trip-breaker", "PATCH", "/verif/seeded/C12/deadline-errors-never-trip-breaker/patch.diff"),
     ("hdel-eq1", R, "val = v >= 1\n\t\treturn nil\n\t}, acceptable)\n\n\treturn\n}\n\n// HExists", "val = v == 1\n\t\treturn nil\n\t}, acceptable)\n\n\treturn\n}\n\n// HExists"),
     ("tostrings-nil-element-dropped", R, "ret := make([]string, len(values))\n\tfor i, v := range values {\n\t\tif v == nil {\n\t\t\tret[i] = \"\"", "ret := make([]string, len(values))\n\tfor i, v := range values {\n\t\tif v == nil {\n\t\t\tret = ret[:len(ret)-1]"),
+    # round 8: TLS option, GeoHash / blocking-pop replies, two-node cluster, dropped connections, unspecified inputs
+    ("seeded-blpop-empty-element-dropped", "PATCH", "/verif/seeded/C12/blpop-empty-element-dropped/patch.diff"),
+    ("seeded-pipelined-wrapped-in-multi", "PATCH", "/verif/seeded/C12/pipelined-wrapped-in-multi/patch.diff"),
+    ("withtls-ignored", R, "r.tls = true", "r.tls = false"),
+    ("config-newredis-drops-tls", CFG, "if c.Tls {", "if false {"),
+    ("clustermanager-ignores-tls", CL, "if r.tls {", "if false {"),
+    ("geohash-only-first-member", R, "node.GeoHash(ctx, key, members...)", "node.GeoHash(ctx, key, members[:1]...)"),
+    ("blpop-timeout-nil-swallowed", R, fn("BLPopWithTimeoutCtx", "if err != nil {\n\t\treturn \"\", err\n\t}", "if err != nil && err != red.Nil {\n\t\treturn \"\", err\n\t}")),
+    ("cluster-no-redirects", CL, "MaxRetries:   maxRetries,", "MaxRetries:   maxRetries,\n\t\t\tMaxRedirects: -1,"),
+    ("getredis-unsupported-type-nil-nil", R, "return nil, fmt.Errorf(\"不支持 redis 类型 '%s'\", r.Type)", "return nil, nil"),
+    ("blpop-nil-node-check-removed", R, fn("BLPopWithTimeoutCtx", "if node == nil {\n\t\treturn \"\", ErrNilNode\n\t}\n", "")),
+    ("scriptcache-not-initialised", SC, "\t\tscriptCache.Store(make(Map))\n", ""),
+    ("acceptable-accepts-eof", R, "return err == nil || err == red.Nil || err == context.Canceled", "return err == nil || err == red.Nil || err == context.Canceled || err == io.EOF"),
+    ("hook-clears-eof", HK, "err := cmd.Err()\n\th.endSpan(ctx, err)", "err := cmd.Err()\n\tif err == io.EOF {\n\t\tcmd.SetErr(nil)\n\t}\n\th.endSpan(ctx, err)"),
     # kv
     ("kv-hdel-other-key", KV, "return node.HDelCtx(ctx, key, field)", "return node.HDelCtx(ctx, field, key)"),
     ("kv-get-wrong-node", KV, fn("GetCtx", "node, err := s.getRedis(key)", "node, err := s.getRedis(key + \"x\")")),
@@ -133,6 +151,8 @@ def apply(path, old, new):
     else:
         assert src.count(old) == 1, "%d occurrences of %r" % (src.count(old), old)
         src = src.replace(old, new)
+    if "err == io.EOF" in src and '"io"' not in src:
+        src = src.replace('import (\n', 'import (\n\t"io"\n', 1)
     if "math.Round" in src and '"math"' not in src:
         src = src.replace('import (\n', 'import (\n\t"math"\n', 1)
     open(full, "w").write(src)
@@ -160,8 +180,9 @@ def main():
             continue
         t0 = time.time()
         env = dict(os.environ, VERIF_REPO=SCR, VERIF_TIMEOUT="150", VERIF_SHRINKTIME="3s")
-        r = subprocess.run(["/verif/bin/check", "C12"], env=env, capture_output=True, text=True)
-        out = r.stdout
+        r = subprocess.Popen(["/verif/bin/check", "C12"], env=env, stdout=subprocess.PIPE, stderr=subprocess.PIPE, text=True)
+        out, _ = r.communicate()
+        work = "/verif/.work/C12.p%d" % r.pid  # one work directory per invocation (kept after a red run)
         viol = [l for l in out.splitlines() if l.startswith("VIOLATION") or l.startswith("  rule=")]
         rule = ""
         for l in out.splitlines():
@@ -174,7 +195,7 @@ def main():
         try:
             ev = {}
             import glob
-            for fp in glob.glob("/verif/.work/C12/out/C12.*.json"):
+            for fp in glob.glob(work + "/out/C12.*.json"):
                 fr = json.load(open(fp))
                 ev[fr["rule"]] = fr["evaluations"]
             evals = json.dumps(ev)
@@ -182,8 +203,8 @@ def main():
             pass
         after = {}
         import glob as _g
-        for lp in _g.glob("/verif/.work/C12/log_*.txt"):
-            unit = "kv" if "_kv_" in lp else "redis"
+        for lp in _g.glob(work + "/log_*.txt"):
+            unit = "kv" if "_kv_" in lp else ("metrics" if "-metrics" in lp else "redis")
             for l in open(lp, errors="replace"):
                 mm = re.search(r"--- FAIL: (TestVerif_C12_\w+)", l)
                 mm2 = re.search(r"\[rapid\] failed after (\d+) tests", l)
